@@ -269,4 +269,40 @@ theorem specFieldsOf_noH (attrs : Attr → PyVal) (tbl : List (Attr × Nat × Bo
   obtain ⟨ent, _, w, _, _, _, hh⟩ := specFieldsOf_mem attrs tbl fs h f hf
   exact hvalOf_ty_ne_h w f.2 hh hty
 
+theorem lookupAttr_mem (T : Tables) (code : Nat) (a : Attr) (h : lookupAttr T code = some a) : (code, a) ∈ T.hcode := by
+  simp only [lookupAttr] at h
+  cases hf : T.hcode.find? (fun p => p.1 == code) with
+  | none => rw [hf] at h; cases h
+  | some p =>
+    rw [hf] at h
+    simp only [Option.map_some, Option.some.injEq] at h
+    have hm := List.mem_of_find?_eq_some hf
+    have hp := List.find?_some hf
+    simp only [beq_iff_eq] at hp
+    obtain ⟨c, b⟩ := p
+    simp only at hp h
+    subst hp; subst h
+    exact hm
+
+/-- The wrapper typing of `_marshal` gives every attribute the type the specification's table demands. -/
+theorem wrap_type (a : Attr) (v w : PyVal) (hv : HVal) (hok : AttrOK a v) (hn : v ≠ .none)
+    (hw : wrapAttr a v = .ok w) (hh : hvalOf w = some hv) : hv.ty = attrType a := by
+  rcases hok with h | h
+  · exact absurd h hn
+  · cases a <;> simp only at h <;> obtain ⟨x, rfl⟩ := h <;>
+      simp only [wrapAttr, toStrCls, toUInt32, Except.ok.injEq] at hw <;> subst hw <;>
+      simp only [hvalOf, Option.some.injEq] at hh <;> subst hh <;> rfl
+
+theorem specFieldsOf_typed (T : Tables) (hT : T.OK) (cls : MsgClass) (b : Bool) (attrs : Attr → PyVal)
+    (hok : ∀ a, AttrOK a (attrs a)) (fs : List Field) (h : specFieldsOf attrs (T.entries cls b) = some fs) :
+    ∀ f ∈ fs, Spec.fieldType f.1 = some f.2.ty := by
+  intro f hf
+  obtain ⟨ent, he, w, h1, h2, h3, h4⟩ := specFieldsOf_mem attrs _ fs h f hf
+  have hty := wrap_type ent.1 (attrs ent.1) w f.2 (hok ent.1) h2 h3 h4
+  have hl := (hT.hcode cls ent (entries_sub T cls b ent he)).2
+  have hm := lookupAttr_mem T _ _ hl
+  have := hT.hcodeTypes _ hm
+  simp only at this
+  rw [h1, this, hty]
+
 end Txdbus.Msg
